@@ -221,9 +221,10 @@ Proof.
   unfold skipdef_class, dump_entry. intros Hc Hcl. rewrite Hcl in *.
   destruct (vr_skip_default vr); [|left; reflexivity].
   destruct (cleanup yl false (vr_skip_none vr) (lf_ty lf) (lf_def lf) (lf_def lf)) as [| |dj]; try (left; reflexivity).
-  unfold trim. destruct (py_eq j dj).
-  - destruct (veq (lf_def lf) w); [right; split; reflexivity|discriminate].
-  - left; reflexivity.
+  destruct (trim (lf_ty lf) j dj) as [| |j'].
+  - discriminate.
+  - destruct (veq (lf_def lf) w); [right; split; reflexivity|]. destruct (spec_class j); discriminate.
+  - destruct (val_eqb j' j); [left; reflexivity|discriminate].
 Qed.
 
 Lemma cleanup_nonnone sn t dflt w j :
